@@ -1,0 +1,45 @@
+//! Verification hook: a [`Target`] over an arbitrary transport.
+use std::{fmt, marker::PhantomData, sync::Arc};
+
+use anyhow::Context;
+use netconf::{transport::Transport, Session};
+
+use super::{Client, Closed, Target};
+use crate::verif::ConnectFuture;
+
+pub struct Connector<T> {
+    f: Arc<dyn Fn() -> ConnectFuture<T> + Send + Sync>,
+}
+
+impl<T> Connector<T> {
+    pub(crate) fn new(f: Arc<dyn Fn() -> ConnectFuture<T> + Send + Sync>) -> Self {
+        Self { f }
+    }
+}
+
+impl<T> Clone for Connector<T> {
+    fn clone(&self) -> Self {
+        Self { f: self.f.clone() }
+    }
+}
+
+impl<T> fmt::Debug for Connector<T> {
+    fn fmt(&self, f: &mut fmt::Formatter<'_>) -> fmt::Result {
+        f.write_str("Connector")
+    }
+}
+
+impl<T: Transport + 'static> Target for Connector<T> {
+    type Transport = T;
+
+    async fn connect(self) -> anyhow::Result<Client<Self, Closed>> {
+        let transport = (self.f)().await?;
+        Session::verif_new(transport)
+            .await
+            .context("failed to establish NETCONF session")
+            .map(|session| Client {
+                session,
+                _db_state: PhantomData,
+            })
+    }
+}
